@@ -136,6 +136,7 @@ func registry() []PropSpec {
 				{Pkg: pkgCC, Func: "H03b_q", Unwind: 12, Note: "checkHeaders: <=2 expected and <=2 actual headers, names from {x-a, X-A, x-b, X-B}, <=2 values each from {v, w, \"v, w\", \"v,w\"}"},
 				{Pkg: pkgCC, Func: "H03c_q", Unwind: 12, Note: "checkError: presence, codes 1..3, one optional other allowed code, message specified or not, <=2 details per side (RequestInfo or other type, 2 contents each)"},
 				{Pkg: pkgCC, Func: "H03e_q", Unwind: 12, Split: []SplitDim{{"stream", 1, 5}, {"hasPayload", 0, 1}, {"hasErr", 0, 1}, {"eh.n", 0, 1}, {"et.n", 0, 1}, {"ah.n", 0, 1}, {"at.n", 0, 1}}, CaseNote: "case split: stream type, payload/error presence and the number of headers on each of the four sides are enumerated; names, values and HTTP status stay symbolic", Note: "assert(): <=1 expected header, <=1 expected trailer, <=1 actual header, <=1 actual trailer (names x-a/X-A/x-b/X-B, <=2 values), every stream type, with/without payload and error, HTTP status absent/200/404 on each side"},
+				{Pkg: pkgCC, Func: "H03f_q", Unwind: 12, Note: "checkPayloads: <=2 payloads per side, 1 data byte each, 0..2 echoed requests per payload from 2 distinct messages"},
 				{Pkg: pkgCC, Func: "H03d_q", Unwind: 8, Note: "checkRequestInfo: echoed timeout for all int64 actual values and all non-negative int64 expected values, presence of either side"},
 			},
 			Stubs: []string{"strings.Split/ToLower, reflect.DeepEqual([]string) are bounded Go models", "anypb.Any MessageIs/UnmarshalTo and cmp.Diff(protocmp) are contract stubs (equal iff type URL and bytes equal)", "error texts (fmt.Errorf arguments, Code.String) are not the subject"},
